@@ -482,10 +482,14 @@ impl<R: Clone + 'static> GlobalCache<R> {
         let key_s = key.to_string();
         let entry = CacheEntry::new(value);
 
-        // Acquire write lock for modification
+        // The queue lock is taken first and held across the map write (queue, then map: the
+        // order every other path uses). Whoever removes entries (clear, invalidation, expiry,
+        // eviction) holds the queue lock too, so it sees either the whole store or none of it;
+        // otherwise a removal landing between the two halves leaves a queue slot for a key
+        // that is not stored, and the entry limit counts that slot forever.
+        let mut o = self.order.lock();
         self.map.write().insert(key_s.clone(), entry);
 
-        let mut o = self.order.lock();
         if let Some(pos) = o.iter().position(|k| *k == key_s) {
             o.remove(pos);
         }
@@ -658,10 +662,14 @@ impl<R: Clone + 'static + crate::MemoryEstimator> GlobalCache<R> {
         let key_s = key.to_string();
         let entry = CacheEntry::new(value);
 
-        // Acquire write lock for modification
+        // The queue lock is taken first and held across the map write (queue, then map: the
+        // order every other path uses). Whoever removes entries (clear, invalidation, expiry,
+        // eviction) holds the queue lock too, so it sees either the whole store or none of it;
+        // otherwise a removal landing between the two halves leaves a queue slot for a key
+        // that is not stored, and the entry limit counts that slot forever.
+        let mut o = self.order.lock();
         self.map.write().insert(key_s.clone(), entry);
 
-        let mut o = self.order.lock();
         if let Some(pos) = o.iter().position(|k| *k == key_s) {
             o.remove(pos);
         }
